@@ -633,12 +633,20 @@ def rule_who_is_shortened(ctx, R="C06/who-is-shortened"):
                             except ipe.Unsupported:
                                 ok = False
                 ctx.check(ok, R, "estimate", b.where(bi, si), "the cap is armed iff position + threads*8192 + 65536 > size limit", "estimate predicate is %s" % [[(show(a_)[:160], v_) for a_, v_ in c] for c in (dnf or [])])
+                # ... with the position the image has WHEN the estimate is made: a `position()` cached in a local above the thread-list
+                # header and array allocations is short by what they appended, and limits just below the threshold no longer arm the cap
+                if ok and len(pos[0]) > 3 and pos[0][3]:
+                    from rules import c01 as _c01p
+                    ps = pos[0][3][1]
+                    between = (b.reachable_from(ps, unwind=False) & _c01p.can_reach(b, bi)) - {ps, bi}
+                    grow = sorted(b.where(x) for x in between if b.term(x)["k"] == "call" and _c01p.buffer_mut_arg(b.term(x)))
+                    ctx.check(not grow, R, ("estimate", "position-is-current"), b.where(bi, si), "nothing is appended to the image between the read of position() and the estimate",
+                              "the estimate uses a position() read before call(s) that grow the image (%s): it is too small by what they append" % ", ".join(grow[:4]))
     else:
         ctx.unproven(R, "estimate", b.where(0), "extra_thread_stack_len local not found")
 
 
-def rule_descriptor_agrees(ctx):
-    R = "C06/descriptor-agrees"
+def rule_descriptor_agrees(ctx, R="C06/descriptor-agrees"):
     b = ctx.body(R, FTS)
     if b is None:
         return
